@@ -136,6 +136,22 @@ def check_program(src):
         if sg not in seen:
             seen.add(sg)
             fails.append({"kind": "census", "signature": sg, "detail": repr(e)[:300]})
+    # history: generating a second time from the same graph must give the same program
+    try:
+        from numba_scfg.core.datastructures.ast_transforms import SCFG2AST
+
+        out2 = SCFG2AST(src, scfg)
+        if ast.unparse(out2) != text:
+            fails.append({"kind": "census", "signature": "second-generation-differs", "detail": ast.unparse(out2)[:200]})
+        for e in census(scfg, out2, names):
+            if sig_of(e) in seen:
+                continue  # already reported for the first generation
+            sg = "second-generation:" + sig_of(e)
+            if sg not in seen:
+                seen.add(sg)
+                fails.append({"kind": "census", "signature": sg, "detail": repr(e)[:300]})
+    except Exception as e:
+        fails.append({"kind": "codegen", "signature": "second-generation:" + exc_signature(e), "detail": repr(e)[:200]})
     return fails, "ok"
 
 
